@@ -2081,12 +2081,132 @@ func (w *World) immutableField(f *types.Var) bool {
 				if al, isAl := rootAddr(fa).(*ssa.Alloc); isAl && freshUnescapedAt(al, st) {
 					return
 				}
+				if w.freshResultUnescapedAt(rootAddr(fa), st) {
+					return
+				}
 				written[fieldOf(fa)] = true
 			})
 		}
 		s.immWritten = written
 	}
 	return !s.immWritten[f]
+}
+
+// freshResultUnescapedAt: obj is the result of a module constructor that hands back a fresh
+// allocation on every return (NewAllocation's &Allocation{…}), and nothing that can run
+// before `at` in this function has passed it on: a store to one of its fields at `at` is
+// still part of the construction.
+func (w *World) freshResultUnescapedAt(obj ssa.Value, at ssa.Instruction) bool {
+	if _, isP := obj.(*ssa.Parameter); isP {
+		return false
+	}
+	// the object's uses: of the call's value itself and, when it lives in a captured
+	// variable (a cell written once), of every load of that cell and of the cell
+	var uses []ssa.Instruction
+	addUses := func(v ssa.Value, skip func(ssa.Instruction) bool) {
+		if rs := v.Referrers(); rs != nil {
+			for _, r := range *rs {
+				if skip == nil || !skip(r) {
+					uses = append(uses, r)
+				}
+			}
+		}
+	}
+	val := obj
+	if u, ok := obj.(*ssa.UnOp); ok && u.Op == token.MUL {
+		cell, isCell := u.X.(*ssa.Alloc)
+		if !isCell {
+			return false
+		}
+		var init *ssa.Store
+		for _, r := range *cell.Referrers() {
+			switch x := r.(type) {
+			case *ssa.Store:
+				if x.Addr != ssa.Value(cell) || init != nil {
+					return false
+				}
+				init = x
+			case *ssa.UnOp:
+				addUses(x, nil)
+			case *ssa.DebugRef:
+			default:
+				uses = append(uses, r) // the closure that captures the cell
+			}
+		}
+		if init == nil {
+			return false
+		}
+		val = init.Val
+		addUses(val, func(r ssa.Instruction) bool { return r == ssa.Instruction(init) })
+	} else {
+		addUses(obj, nil)
+	}
+	call, idx := callOf(val)
+	if call == nil || call.Parent() != at.Parent() {
+		return false
+	}
+	h := call.Call.StaticCallee()
+	if h == nil || !w.IsMod[h] || len(h.Blocks) == 0 {
+		return false
+	}
+	if idx < 0 {
+		idx = 0
+	}
+	rets := returnsOf(h)
+	if len(rets) == 0 {
+		return false
+	}
+	for _, r := range rets {
+		if idx >= len(r.Results) {
+			return false
+		}
+		rv := w.resolveLoad(r.Results[idx])
+		if isNilConst(rv) {
+			continue
+		}
+		al, ok := rv.(*ssa.Alloc)
+		if !ok || !al.Heap || !freshUnescapedAt(al, r) {
+			return false
+		}
+	}
+	for _, r := range uses {
+		switch r.(type) {
+		case *ssa.FieldAddr, *ssa.DebugRef:
+			continue
+		}
+		if bo, ok := r.(*ssa.BinOp); ok && (bo.Op == token.EQL || bo.Op == token.NEQ) {
+			continue
+		}
+		if r == at {
+			continue
+		}
+		if instrReaches(r, at) {
+			return false
+		}
+	}
+	return true
+}
+
+// immutableGetter: h is `func (x *T) F() U { return x.f }` with f a field that is only
+// written while its object is under construction: the call yields the same value whenever it
+// is made on the same object.
+func (w *World) immutableGetter(h *ssa.Function) bool {
+	if h == nil || !w.IsMod[h] || len(h.Blocks) != 1 || len(h.Params) != 1 {
+		return false
+	}
+	rets := returnsOf(h)
+	if len(rets) != 1 || len(rets[0].Results) != 1 {
+		return false
+	}
+	u, ok := rets[0].Results[0].(*ssa.UnOp)
+	if !ok || u.Op != token.MUL {
+		return false
+	}
+	fa, ok := u.X.(*ssa.FieldAddr)
+	if !ok || fa.X != ssa.Value(h.Params[0]) {
+		return false
+	}
+	return w.immutableField(fieldOf(fa))
 }
 
 // zeroConstAny: zeroConstOf extended to basic types (0, "", false).
